@@ -152,6 +152,8 @@ def run_check(prop, tier):
         json.dump({"property": prop, "kind": "native-witness", "witness": v}, open(path, "w"), indent=1, default=str)
         lines.append(f"VIOLATION property={prop} replay={path}")
         new_viol += 1
+    native_paths = [ln.split("replay=")[1] for ln in lines if ln.startswith("VIOLATION")]
+    lines = lines[:6] + ([f"# ... {len(lines) - 6} more native witnesses omitted"] if len(lines) > 6 else [])
     for full, v in failed:
         k = match_known(known, prop, obligation=full)
         if k is not None:
@@ -159,16 +161,31 @@ def run_check(prop, tier):
                 reported_known.add(id(k))
                 lines.append(f"KNOWN-FINDING: property={prop} {k['text']}")
             continue
-        # a failed obligation explained by an already reported native witness of the same obligation group
-        if any(nv.get("obligation") and full.startswith(nv["obligation"]) for nv in native_viol):
-            continue
-        path = os.path.join(HERE, "replays", f"{prop}-{re.sub(r'[^A-Za-z0-9]+', '_', full)}.json")
-        json.dump({"property": prop, "kind": "failed-obligation", "obligation": full, "status": v["status"],
-                   "solver_output": v.get("detail", ""), "model": v.get("model", ""), "decisions": v.get("decisions", []),
-                   "note": "no native failing input was found by the bounded search; the obligation is discharged on the unchanged tree"},
-                  open(path, "w"), indent=1, default=str)
-        if new_viol == 0 or True:
-            lines.append(f"VIOLATION property={prop} replay={path} no-failing-input-found")
+        path = os.path.join(HERE, "replays", f"{prop}-{re.sub(r'[^A-Za-z0-9]+', '_', full)[:120]}.json")
+        doc = {"property": prop, "kind": "failed-obligation", "obligation": full, "status": v["status"],
+               "solver_output": v.get("detail", ""), "model": v.get("model", ""), "decisions": v.get("decisions", [])}
+        if native_paths:
+            doc["native_witness"] = native_paths[0]
+            doc["note"] = "the bounded native search found a failing input for this property (see native_witness)"
+            json.dump(doc, open(path, "w"), indent=1, default=str)
+            lines.append(f"VIOLATION property={prop} replay={path}")
+        else:
+            w = None
+            if spec.get("witness"):
+                try:
+                    w = spec["witness"](full, v)
+                except Exception as e:   # a failing replay harness never turns into a verdict by itself
+                    doc["witness_error"] = f"{type(e).__name__}: {e}"
+            if w:
+                doc["witness"] = w
+                doc["note"] = "counterexample derived from the failed obligation and replayed against the real code"
+                json.dump(doc, open(path, "w"), indent=1, default=str)
+                lines.append(f"VIOLATION property={prop} replay={path}")
+            else:
+                doc["note"] = ("no native failing input was found; this obligation is discharged on the unchanged tree and "
+                               "fails now, with the solver's counter-model / reason attached")
+                json.dump(doc, open(path, "w"), indent=1, default=str)
+                lines.append(f"VIOLATION property={prop} replay={path} no-failing-input-found")
         new_viol += 1
     code = 0
     if new_viol:
